@@ -160,10 +160,12 @@ type rigEvent struct {
 }
 
 type rigCase struct {
-	Variant string     `json:"variant"`
-	Cores   int        `json:"cores"`
-	Prefill int        `json:"prefill"` // lines read by core 0 before the schedule starts
-	Events  []rigEvent `json:"events"`
+	Variant   string     `json:"variant"`
+	Cores     int        `json:"cores"`
+	Prefill   int        `json:"prefill"`              // lines accessed by core 0 before the schedule starts
+	PrefillOp string     `json:"prefill_op,omitempty"` // "read" (default) or "write" (dirty lines)
+	Setup     []rigEvent `json:"setup,omitempty"`      // requests run one at a time, each to completion, before the schedule
+	Events    []rigEvent `json:"events"`
 }
 
 const rigHorizon = 6000
@@ -183,6 +185,10 @@ func rigRun(k rigCase) (class, detail string, cycles int, overlapped bool) {
 	}
 	ref := append([]int8{}, mem...)
 	t := 0
+	// The invariants are evaluated after every cycle of the schedule proper. The cycles of a
+	// setup sequence are checked once, when the sequence itself is run as a case without events
+	// (every setup sequence is; see c06RigRun), not again in each of the schedules that start from it.
+	checking := len(k.Events) == 0 || len(k.Setup) == 0
 	step := func(cur []*rigEvent) (string, string) {
 		for c := 0; c < k.Cores; c++ {
 			r.Snoop(c)
@@ -213,6 +219,9 @@ func rigRun(k rigCase) (class, detail string, cycles int, overlapped bool) {
 				}
 			}
 		}
+		if !checking {
+			return "ok", ""
+		}
 		s := r.Snapshot()
 		cl, d := checkMSI(&s)
 		if cl != "ok" {
@@ -220,21 +229,43 @@ func rigRun(k rigCase) (class, detail string, cycles int, overlapped bool) {
 		}
 		return "ok", ""
 	}
-	// prefill: core 0 reads `Prefill` distinct lines starting at 128 (one at a time)
+	// prefill: core 0 reads / writes `Prefill` distinct lines starting at 128; setup: arbitrary
+	// requests; all of them one at a time, each run to completion
 	cur := make([]*rigEvent, k.Cores)
+	var pre []rigEvent
+	pop := k.PrefillOp
+	if pop == "" {
+		pop = "read"
+	}
 	for i := 0; i < k.Prefill; i++ {
-		e := &rigEvent{Core: 0, Op: "read", Line: int32(128 + 64*i)}
-		cur[0] = e
-		for cur[0] != nil || !r.Idle(0) {
+		pre = append(pre, rigEvent{Core: 0, Op: pop, Line: int32(128 + 64*i)})
+	}
+	pre = append(pre, k.Setup...)
+	for i := range pre {
+		e := &pre[i]
+		e.At = 3 + i // only used to derive the written value
+		cur[e.Core] = e
+		start := t
+		for {
 			if cl, d := step(cur); cl != "ok" {
-				return "prefill-" + cl, d, t, false
+				return "setup-" + cl, d, t, false
 			}
 			t++
-			if t > 400*(k.Prefill+1) {
-				return "prefill-no-completion", "", t, false
+			idle := cur[e.Core] == nil
+			for c2 := 0; c2 < k.Cores; c2++ {
+				if !r.Idle(c2) {
+					idle = false
+				}
+			}
+			if idle {
+				break
+			}
+			if t-start > 3000 {
+				return "setup-no-completion", fmt.Sprintf("setup request %d (%+v) still outstanding after 3000 cycles", i, *e), t, false
 			}
 		}
 	}
+	checking = true
 	t0 := t
 	next := 0
 	inflightLine := make([]int32, k.Cores)
@@ -323,6 +354,108 @@ func rigOffsets(tier string, k int) []int {
 	return out
 }
 
+// rigSetups explores the quiescent states of the controllers breadth-first: a
+// state is reached by a sequence of completed requests; one (shortest) sequence
+// is kept per distinct resulting state (directory states + L1 contents per core
+// in MRU order). maxOps = 0 means to the fix-point.
+func rigSetups(variant string, cores, maxOps int) (setups [][]rigEvent, fixpoint bool) {
+	type op struct {
+		core int
+		op   string
+		line int32
+	}
+	var ops []op
+	for cc := 0; cc < cores; cc++ {
+		for _, o := range []string{"read", "write"} {
+			for _, l := range []int32{0, 64} {
+				ops = append(ops, op{cc, o, l})
+			}
+		}
+	}
+	sig0, _ := rigStateAfter(rigCase{Variant: variant, Cores: cores})
+	seen := map[string]bool{sig0: true}
+	setups = append(setups, nil)
+	frontier := [][]rigEvent{nil}
+	for depth := 0; len(frontier) > 0; depth++ {
+		if maxOps > 0 && depth >= maxOps {
+			return setups, false
+		}
+		var next [][]rigEvent
+		for _, base := range frontier {
+			for _, o := range ops {
+				setup := append(append([]rigEvent{}, base...), rigEvent{Core: o.core, Op: o.op, Line: o.line})
+				sig, ok := rigStateAfter(rigCase{Variant: variant, Cores: cores, Setup: setup})
+				if !ok || seen[sig] {
+					continue
+				}
+				seen[sig] = true
+				setups = append(setups, setup)
+				next = append(next, setup)
+			}
+		}
+		frontier = next
+	}
+	return setups, true
+}
+
+// rigStateAfter runs only the setup of k and returns a signature of the state reached.
+func rigStateAfter(k rigCase) (sig string, ok bool) {
+	defer func() {
+		if recover() != nil {
+			ok = false
+		}
+	}()
+	r := newRig(k.Variant, k.Cores)
+	t := 0
+	for i := range k.Setup {
+		e := k.Setup[i]
+		addrs := []int32{e.Line, e.Line + 1, e.Line + 2, e.Line + 3}
+		done := false
+		for n := 0; n < 3000; n++ {
+			for c := 0; c < k.Cores; c++ {
+				r.Snoop(c)
+			}
+			if !done {
+				if e.Op == "read" {
+					_, done = r.Read(e.Core, t, addrs)
+				} else {
+					done = r.Write(e.Core, t, addrs, []int8{1, 1, 1, 1})
+				}
+			}
+			t++
+			idle := done
+			for c := 0; c < k.Cores; c++ {
+				if !r.Idle(c) {
+					idle = false
+				}
+			}
+			if idle {
+				break
+			}
+		}
+		if !done {
+			return "", false
+		}
+	}
+	s := r.Snapshot()
+	var b strings.Builder
+	for _, st := range s.States {
+		if st.State != msiInvalid {
+			fmt.Fprintf(&b, "%d:%d=%d,", st.Core, st.Line, st.State)
+		}
+	}
+	for c, ls := range s.L1 {
+		fmt.Fprintf(&b, "|c%d:", c)
+		for _, l := range ls {
+			fmt.Fprintf(&b, "%d,", l.Base)
+		}
+	}
+	for _, l := range s.L3 {
+		fmt.Fprintf(&b, "L3:%d,", l.Base)
+	}
+	return b.String(), true
+}
+
 func c06RigRun(c *RunCtx) {
 	type op struct {
 		core int
@@ -354,23 +487,24 @@ func c06RigRun(c *RunCtx) {
 			c.Sample(map[string]any{"rig_schedule": k})
 		}
 	}
-	for _, v := range variants {
-		for _, cores := range []int{2, 3} {
-			var ops []op
-			for cc := 0; cc < cores; cc++ {
-				for _, o := range []string{"read", "write"} {
-					for _, l := range []int32{0, 64} {
-						ops = append(ops, op{cc, o, l})
-					}
+	mkOps := func(cores int, lines []int32) []op {
+		var ops []op
+		for cc := 0; cc < cores; cc++ {
+			for _, o := range []string{"read", "write"} {
+				for _, l := range lines {
+					ops = append(ops, op{cc, o, l})
 				}
 			}
+		}
+		return ops
+	}
+	for _, v := range variants {
+		for _, cores := range []int{2, 3} {
+			ops := mkOps(cores, []int32{0, 64})
 			// ---- k = 2, every offset
 			if cores == 2 || c.Thorough() {
 				for _, a := range ops {
 					for _, b := range ops {
-						if a.core == 0 && b.core == 0 && false {
-							continue
-						}
 						item++
 						if !c.Mine(item) {
 							continue
@@ -381,24 +515,19 @@ func c06RigRun(c *RunCtx) {
 					}
 				}
 			}
-			// ---- k = 3 on the grid (line 0 only for the third request in quick)
 			grid := rigOffsets(c.Tier, 3)
-			if cores == 2 {
+			// ---- k = 3 on the grid (thorough only; the quick tier reaches three and more
+			// requests through the prepared states below)
+			if cores == 2 && c.Thorough() {
 				for _, a := range ops {
 					for _, b := range ops {
 						for _, d := range ops {
-							if !c.Thorough() && (a.line != 0 || (b.line != 0 && d.line != 0)) {
-								continue
-							}
 							item++
 							if !c.Mine(item) {
 								continue
 							}
 							for _, o1 := range grid {
 								for _, o2 := range grid {
-									if !c.Thorough() && o2 > 330 {
-										continue
-									}
 									run(rigCase{Variant: v, Cores: cores, Events: []rigEvent{{a.core, a.op, a.line, 0}, {b.core, b.op, b.line, o1}, {d.core, d.op, d.line, o1 + o2}}})
 								}
 							}
@@ -406,16 +535,57 @@ func c06RigRun(c *RunCtx) {
 					}
 				}
 			}
-			// ---- capacity eviction: pre-filled L1 (16 lines), then two requests
-			if cores == 2 {
-				for _, a := range ops {
-					for _, b := range ops {
-						item++
-						if !c.Mine(item) {
-							continue
+			// ---- prepared states: every distinct state reachable by <= 3 completed requests
+			// (3 cores; 2 cores in thorough too), then two overlapping requests from different cores
+			if cores == 3 || c.Thorough() {
+				offs := []int{0, 1, 3, 100, 305}
+				if c.Thorough() {
+					offs = grid
+				}
+				setups, fix := rigSetups(v, cores, 0)
+				c.AddExtra("rig_prepared_states_"+v+fmt.Sprintf("_%dcores", cores), float64(len(setups))/float64(c.Of))
+				if !fix {
+					c.Cap("rig: quiescent-state search did not reach a fix-point")
+				}
+				for _, setup := range setups {
+					item++
+					if c.Mine(item) {
+						// the setup sequence on its own, invariants checked at every cycle
+						run(rigCase{Variant: v, Cores: cores, Setup: setup})
+					}
+					for _, a := range ops {
+						for _, b := range ops {
+							if a.core == b.core {
+								continue
+							}
+							item++
+							if !c.Mine(item) {
+								continue
+							}
+							for _, off := range offs {
+								run(rigCase{Variant: v, Cores: cores, Setup: setup, Events: []rigEvent{{a.core, a.op, a.line, 0}, {b.core, b.op, b.line, off}}})
+							}
 						}
-						for _, off := range grid {
-							run(rigCase{Variant: v, Cores: cores, Prefill: 16, Events: []rigEvent{{a.core, a.op, a.line, 0}, {b.core, b.op, b.line, off}}})
+					}
+				}
+			}
+			// ---- capacity eviction: pre-filled L1 (16 clean or dirty lines), then a request of core 0 that
+			// displaces the LRU line (128) and a request of the other core for that very line or another one
+			if cores == 2 {
+				pops := mkOps(cores, []int32{0, 128})
+				for _, pop := range []string{"read", "write"} {
+					for _, a := range pops {
+						for _, b := range pops {
+							item++
+							if !c.Mine(item) {
+								continue
+							}
+							for gi, off := range grid {
+								if !c.Thorough() && gi%3 != 0 {
+									continue
+								}
+								run(rigCase{Variant: v, Cores: cores, Prefill: 16, PrefillOp: pop, Events: []rigEvent{{a.core, a.op, a.line, 0}, {b.core, b.op, b.line, off}}})
+							}
 						}
 					}
 				}
@@ -541,7 +711,7 @@ func init() {
 		Run: func(c *RunCtx) {
 			c06RigRun(c)
 			c06MonitorRun(c)
-			c.Sum.Rule = "RX: for MVP-7.0, 7.1 and 8: every schedule of 2 read/write requests from 2 (quick) / 2-3 (thorough) cores on lines 0 and 64 at EVERY issue offset 0..340 (quick) / 0..700 (thorough); 3 requests from 2 cores on a grid of offsets (all offsets within +-4 cycles of each phase boundary 0, 3, 309, 312, 315, 618, 621 of a lone transfer plus a coarse stride); 2 requests after a pre-filled L1 (16 lines, capacity eviction); and request / mid-flight controller flush / request schedules; controllers cycled as CPU.Run does (all snoops, then cores in index order), invariants evaluated on a snapshot after every controller cycle, reads compared with a sequentially consistent reference memory. PX monitor: the same invariant function at every cycle boundary of whole-pipeline runs of every load/store/branch program of length <= 3 (quick) / <= 4 (thorough) over a 10-template alphabet and of sweep programs (17 / 33 lines) on MVP-7.0/7.1/8 x 1..4 cores. states = schedules + monitored executions, transitions = controller cycles + cycle boundaries checked; non-trivial = rig schedules in which two requests were outstanding on the same line at the same time"
+			c.Sum.Rule = "RX: for MVP-7.0, 7.1 and 8: every schedule of 2 read/write requests from 2 (quick) / 2-3 (thorough) cores on lines 0 and 64 at EVERY issue offset 0..340 (quick) / 0..700 (thorough); 3 requests from 2 cores on a grid of offsets (thorough; all offsets within +-4 cycles of each phase boundary 0, 3, 309, 312, 315, 618, 621 of a lone transfer plus a coarse stride); two overlapping requests from different cores started from EVERY quiescent state of 3 cores x 2 lines (breadth-first search over completed requests to a fix-point, one shortest request sequence per distinct directory + L1 state; thorough: also 2 cores, grid offsets); 2 requests after a pre-filled L1 (16 clean or 16 dirty lines: capacity eviction of a clean / dirty victim, the other core touching the victim during its write-back); and request / mid-flight controller flush / request schedules; controllers cycled as CPU.Run does (all snoops, then cores in index order), invariants evaluated on a snapshot after every controller cycle, reads compared with a sequentially consistent reference memory. PX monitor: the same invariant function at every cycle boundary of whole-pipeline runs of every load/store/branch program of length <= 3 (quick) / <= 4 (thorough) over a 10-template alphabet and of sweep programs (17 / 33 lines) on MVP-7.0/7.1/8 x 1..4 cores. states = schedules + monitored executions, transitions = controller cycles + cycle boundaries checked; non-trivial = rig schedules in which two requests were outstanding on the same line at the same time"
 			c.Assume("a transfer in progress = the line's semaphore is held or a directory command for the line (or its containing L3 line) is outstanding; residency/state/next-level equalities are only required outside transfers, as the statement says")
 			c.Assume("rig flush events follow the pipeline's discipline: the flushed core's request is dropped and the core may issue again")
 		},
